@@ -468,6 +468,9 @@ class Molecule(nx.Graph):
 
         # copy citations
         subgraph.citations = self.citations.copy()
+        # `nodes` can be a generator (e.g. from `selectors.filter_minimal`); it
+        # is iterated more than once below.
+        nodes = list(nodes)
         node_copies = [(node, copy.copy(self.nodes[node])) for node in nodes]
         subgraph.add_nodes_from(node_copies)
 
